@@ -68,6 +68,7 @@ func checkC02(r *Run) {
 	r.Rule("C02.R4.delete", "channel deletion: removeChannel, then Rename(dir, dir+'-DELETE-'+n) under DB.mu, then Remove of exactly that renamed name; crash-intermediate names are not accepted by the open-time scanners", 6)
 	r.Rule("C02.ERR", "no error returned by a call is discarded anywhere in cesium (result unbound or bound to _), except the tabled sites: a swallowed file-system, index or codec error makes a failed step look successful", 1)
 	r.Rule("C02.R6.close", "Writer.Close flushes the index whenever lazily persisted commits are possible: the flush is unconditional or guarded only by configuration fields, or by a writer flag that is never cleared outside Close (a commit that is later rejected must not be able to cancel the flush of earlier commits)", 1)
+	r.Rule("C02.R8.load", "pointerPersist.load fails only when the index file cannot be read: it never rejects what it decoded (a crash between Truncate and WriteAt leaves zeroed or stale records behind, and reopening must still succeed)", 1)
 	r.Rule("C02.R7.scan", "the open-time scan of data files tolerates a key that has no file yet (the file counter is bumped before the file is created): Stat is reached only behind Exists == true, or its error is filtered before it fails Open", 1)
 	r.Rule("C02.R5.gc", "DB.GarbageCollect persists the whole index after the last garbageCollectFile on every success path; garbageCollectFile rewrites offsets and renames both files inside one idx.mu write section, and removes only the _temp name", 5)
 
@@ -144,6 +145,7 @@ func checkC02(r *Run) {
 	checkCloseFlush(r, p)
 	checkErrDrop(r, p, "C02.ERR", func(fn *FuncNode) bool { return fn.InPkgs("cesium") && !fn.InPkgs("cesium/internal/testutil") }, 500)
 	checkScanTolerance(r, p)
+	checkLoadTolerance(r, p)
 	r.Stats["fs_open_sites"] = nOpen
 	r.Stats["fs_rename_sites"] = nRename
 }
@@ -1169,4 +1171,53 @@ func checkPersistInOrder(r *Run, p *Prog, la *LockAnalysis) {
 	if n < 5 {
 		r.Undecide("C02.R2.inorder: only %d persist invocations found (expected 5)", n)
 	}
+}
+
+// checkLoadTolerance decides C02.R8.
+func checkLoadTolerance(r *Run, p *Prog) {
+	fn := p.Func(domainPkg, "pointerPersist", "load")
+	if fn == nil {
+		r.Undecide("C02.R8: pointerPersist.load not found")
+		return
+	}
+	ioErr := map[types.Object]bool{}
+	inspectNoLit(fn.Body, func(x ast.Node) bool {
+		as, ok := x.(*ast.AssignStmt)
+		if !ok || len(as.Rhs) != 1 {
+			return true
+		}
+		call, ok := ast.Unparen(as.Rhs[0]).(*ast.CallExpr)
+		if !ok {
+			return true
+		}
+		f := CalleeFunc(fn, call)
+		if f == nil || (f.Name() != "Stat" && f.Name() != "ReadAt" && f.Name() != "Read") {
+			return true
+		}
+		for _, l := range as.Lhs {
+			if o := objOf(fn, l); o != nil && isErrorType(o.Type()) {
+				ioErr[o] = true
+			}
+		}
+		return true
+	})
+	good, detail, n := true, "", 0
+	inspectNoLit(fn.Body, func(x ast.Node) bool {
+		ret, ok := x.(*ast.ReturnStmt)
+		if !ok || len(ret.Results) != 2 {
+			return true
+		}
+		n++
+		e := ret.Results[1]
+		if isNilIdent(fn, e) {
+			return true
+		}
+		if o := objOf(fn, e); o != nil && ioErr[o] {
+			return true
+		}
+		good = false
+		detail = "returns " + types.ExprString(e) + " at " + posOf(p, ret)
+		return true
+	})
+	r.Ob("C02.R8.load", "pointerPersist.load returns only Stat/ReadAt errors", p.Position(fn.Pos()), good && n > 0, detail+": an index image left by a crash inside the truncate/write pair must load (its odd records are harmless empty domains), otherwise every later Open of the channel fails")
 }
